@@ -72,7 +72,26 @@ def main(p):
     if p.get("kind") == "values":
         return main_values(p)
     from sigpyproc.readers import PFITSReader
-    f = PFITSReader(TESTFILE)
+    testfile = TESTFILE
+    if p.get("ascending"):
+        # an ascending-frequency twin of the shipped file: same rows with the DAT_FREQ columns reversed
+        import atexit
+        import shutil
+        import tempfile
+        import warnings
+        from astropy.io import fits
+        d = tempfile.mkdtemp()
+        atexit.register(shutil.rmtree, d, True)
+        testfile = os.path.join(d, "asc.sf")
+        shutil.copy(TESTFILE, testfile)
+        with warnings.catch_warnings():
+            warnings.simplefilter("ignore")
+            with fits.open(testfile, mode="update") as hd:
+                t = hd["SUBINT"].data
+                for r in range(len(t)):
+                    t["DAT_FREQ"][r] = t["DAT_FREQ"][r][::-1].copy()
+                hd.flush()
+    f = PFITSReader(testfile)
     nsblk = int(f.sub_hdr.subint_samples)
     N = int(f.header.nsamples)
     whole = np.asarray(f._fitsfile.read_subints(0, N // nsblk), dtype=np.float64)
